@@ -86,7 +86,13 @@ type handler func(w *World, op Op) Obs
 
 var handlers = map[string]handler{}
 
-func register(name string, h handler) { handlers[name] = h }
+func register(name string, h handler) {
+	if _, dup := handlers[name]; dup {
+		// two harness files claiming one op name would silently change the meaning of scenarios
+		panic("verif driver: op " + name + " registered twice")
+	}
+	handlers[name] = h
+}
 
 // safe runs h under recover so that a Go panic in the code under test is an
 // observation ("panic": message), not the end of the driver.
